@@ -535,6 +535,7 @@ func TestC01(t *testing.T) {
 	t.Run("include-graph", c01Include.Run)
 	t.Run("long-lines", c01LongLines.Run)
 	t.Run("nesting", c01Nesting.Run)
+	t.Run("work", c01Work.Run)
 	if vlib.SharedIsoStarted() {
 		ev.Note("shard %d isolated worker: %s", vlib.Shard(), vlib.SharedIso().Stats())
 	}
